@@ -63,7 +63,15 @@ class ConformalElectionModel(BaseElectionModel.BaseElectionModel, ABC):
             )
         except (UserWarning, cvxpy.error.SolverError):
             LOG.warning("Warning: solution was inaccurate or solver broke. Re-running with normalize_weights=False.")
-            model.fit(X, y, tau_value=tau, weights=weights, lambda_=self.lambda_, normalize_weights=False)
+            model.fit(
+                X,
+                y,
+                taus=tau,
+                weights=weights,
+                lambda_=self.lambda_,
+                fit_intercept=self.add_intercept,
+                normalize_weights=False,
+            )
 
     def get_unit_predictions(
         self, reporting_units: pd.DataFrame, nonreporting_units: pd.DataFrame, estimand: str, **kwargs
